@@ -2,6 +2,8 @@
 
 from __future__ import annotations
 
+import numpy as np
+
 from .. import oracles as O
 from ..core import digest_of, jsonable, rng_from, stream_seeds
 from ..crashloop import explore
@@ -52,7 +54,13 @@ def run_case(case, workdir):
     if pool is not None:
         # enable_pool(pool, close_pool=False, parallelize_prior=?) is applied by the runner
         scn = dict(scn)
-    r = run_process(scn, workdir, pool=pool, fresh_file=True)
+    def probe_fn(ki, z0):
+        # the kernel asks about a (small) batch of far-away points: wherever the preconditioning map is unbounded they are
+        # ALL outside the prior support -- the user's likelihood must still receive exactly the points that are counted
+        sd = np.where(z0.std(axis=0) > 0, z0.std(axis=0), 1.0)
+        return [z0[: min(3, len(z0))] + 1e3 * sd]
+
+    r = run_process(scn, workdir, pool=pool, fresh_file=True, probe_fn=probe_fn if case["run_index"] % 2 == 0 else None)
     evaluations, events = 1, len(r.trace.events)
     aborted = None
     if r.status != "ok":
